@@ -393,6 +393,74 @@ func init() {
 			}
 			return IntB(new(big.Int).Exp(x.I, y.I, mod))
 		})
+		m[bp+"SetString"] = func(ex *Exec, fr *frame, cc *ssa.CallCommon, a []Value) Value {
+			z := a[0].(VPtr)
+			s := a[1].(VStr)
+			base := ti(a[2])
+			if !base.Const {
+				panic(unsupported{"SetString symbolic base"})
+			}
+			fail := VTuple{VPtr{}, VBool{BoolC(false)}}
+			if s.Conc != nil {
+				v, ok := new(big.Int).SetString(*s.Conc, int(base.I.Int64()))
+				if !ok {
+					return fail
+				}
+				z.store(VInt{IntB(v)})
+				return VTuple{z, VBool{BoolC(true)}}
+			}
+			if base.I.Int64() != 16 {
+				panic(unsupported{"SetString base != 16 on symbolic string"})
+			}
+			if s.Atom != nil {
+				if s.HexNum {
+					q, _ := ex.divModPos(*s.Atom, big.NewInt(2))
+					z.store(VInt{q})
+					return VTuple{z, VBool{BoolC(true)}}
+				}
+				if ex.decide(ex.ufApp("hexok", true, *s.Atom)) {
+					v := ex.ufApp("hexval", false, *s.Atom)
+					ex.assume(Ge(v, IntC(0)))
+					z.store(VInt{v})
+					return VTuple{z, VBool{BoolC(true)}}
+				}
+				return fail
+			}
+			// byte-level: ^[+-]?[0-9a-fA-F]+$ (underscores are only legal with base 0)
+			bs := s.Bytes
+			n := len(bs)
+			digits := func(from int) Term {
+				if from >= n {
+					return BoolC(false)
+				}
+				ok := BoolC(true)
+				for _, b := range bs[from:] {
+					ok = And(ok, isHexDigit(b))
+				}
+				return ok
+			}
+			ok := digits(0)
+			signed := BoolC(false)
+			if n >= 1 {
+				signed = Or(Eq(bs[0], IntC('+')), Eq(bs[0], IntC('-')))
+				ok = Or(ok, And(signed, digits(1)))
+			}
+			if !ex.decide(ok) {
+				return fail
+			}
+			val := IntC(0)
+			start := 0
+			neg := BoolC(false)
+			if n >= 1 && ex.decide(signed) {
+				start = 1
+				neg = Eq(bs[0], IntC('-'))
+			}
+			for _, b := range bs[start:] {
+				val = ex.nameT(Add(Mul(val, IntC(16)), hexDigitVal(b)))
+			}
+			z.store(VInt{ex.nameT(Ite(neg, Neg(val), val))})
+			return VTuple{z, VBool{BoolC(true)}}
+		}
 		m[bp+"Cmp"] = func(ex *Exec, fr *frame, cc *ssa.CallCommon, a []Value) Value {
 			x, y := bigVal(a[0]), bigVal(a[1])
 			return VInt{Ite(Lt(x, y), IntC(-1), Ite(Gt(x, y), IntC(1), IntC(0)))}
